@@ -16,9 +16,10 @@ if [ "$2" = suite ]; then s=ok; go test -vet=off -count=1 ./... >/dev/null 2>&1 
 f=$(ls "$d" | grep '_test.go$' | head -1)
 cp "$d/$f" "$demo"
 names=$(grep -o 'func Test[A-Za-z0-9_]*' "$demo" | sed 's/func //' | paste -sd'|')
-w=ok; go test -vet=off -count=1 -run "^($names)\$" "./$(dirname $demo)" >/dev/null 2>&1 || w=FAIL
+race=$(python3 -c "import json;print('-race' if json.load(open('$d/meta.json')).get('demo_needs_race') else '')")
+w=ok; go test $race -vet=off -count=1 -run "^($names)\$" "./$(dirname $demo)" >/dev/null 2>&1 || w=FAIL
 git apply -R "$d/patch.diff"
-wo=ok; go test -vet=off -count=1 -run "^($names)\$" "./$(dirname $demo)" >/dev/null 2>&1 || wo=FAIL
+wo=ok; go test $race -vet=off -count=1 -run "^($names)\$" "./$(dirname $demo)" >/dev/null 2>&1 || wo=FAIL
 cd /verif
 git -C /repo worktree remove --force "$wt"
 echo "$1 apply=$a build=$b suite=$s demo_with=$w demo_without=$wo"
